@@ -35,13 +35,14 @@ def ty_src(t):
     return l + " ** " + ty_src(t[2])
 
 
-def body_src(b):
+def body_src(b, top=True):
     if b[0] == "op":
-        return f"OPS['{b[1]}']"
+        # a body that is just an operator must still be an expression
+        return f"OPS['{b[1]}']" + (".instance()" if top else "")
     if b[0] == "p":
         return f"x{b[1]}"
     head, args = spine(b)
-    return body_src(head) + "(" + ", ".join(body_src(a) for a in args) + ")"
+    return body_src(head, False) + "(" + ", ".join(body_src(a, False) for a in args) + ")"
 
 
 def spine(b):
@@ -150,31 +151,32 @@ def sub_ok(res, target):
     return res == target or (res == B and target == A)
 
 
-def candidates(table, env, target, allow_nonlinear):
+def candidates(table, env, target, allow_nonlinear, exact=False):
     """(kind, name/index, number of arguments to supply, parameter types)"""
     out = []
+    sub_ok_ = (lambda r, t: r == t) if exact else sub_ok
     for name, (ty, linear) in table.items():
         if not linear and not allow_nonlinear:
             continue
         ps, r = uncurry(ty)
         for k in range(len(ps) + 1):
             rest = fun(*ps[k:], r)
-            if rest == target or (k == len(ps) and sub_ok(r, target)):
+            if rest == target or (k == len(ps) and sub_ok_(r, target)):
                 out.append(("op", name, k, ps[:k]))
     for i, ty in enumerate(env):
         ps, r = uncurry(ty)
         for k in range(len(ps) + 1):
             rest = fun(*ps[k:], r)
-            if rest == target or (k == len(ps) and sub_ok(r, target)):
+            if rest == target or (k == len(ps) and sub_ok_(r, target)):
                 out.append(("p", i, k, ps[:k]))
     return out
 
 
-def gen_term(rng, table, env, target, depth, allow_nonlinear=True, used=None, linear_params=False):
-    """type-directed term of (a subtype of) `target`; returns a body tree or None"""
+def gen_term(rng, table, env, target, depth, allow_nonlinear=True, used=None, linear_params=False, exact=False):
+    """type-directed term of (a subtype of) `target` (exactly `target` at the top when `exact`); returns a body tree or None"""
     if depth < -3:
         return None
-    cs = candidates(table, env, target, allow_nonlinear)
+    cs = candidates(table, env, target, allow_nonlinear, exact)
     if linear_params and used is not None:
         cs = [c for c in cs if not (c[0] == "p" and c[1] in used)]
     if depth <= 0:
@@ -207,13 +209,14 @@ def gen_family(rng, ncomps=None):
     for i in range(n):
         table = Family(prims, comps, combs).table()
         k = rng.randint(1, 3)
-        ps = [rng.choice([A, A, A, fun(A, A), B]) for _ in range(k)]
+        # a declared signature must not be more general than the inferred one: parameters are A or A ** A
+        ps = [rng.choice([A, A, A, fun(A, A)]) for _ in range(k)]
         # result: data, or a function (partial application)
         r = rng.choice([A, A, A, fun(A, A)])
         linear = rng.random() < 0.8
         for attempt in range(30):
             used = set()
-            body = gen_term(rng, table, ps, r, rng.randint(1, 3), allow_nonlinear=not linear, used=used, linear_params=linear)
+            body = gen_term(rng, table, ps, r, rng.randint(1, 3), allow_nonlinear=not linear, used=used, linear_params=linear, exact=True)
             if body is not None and (used or rng.random() < 0.2):
                 comps.append((f"c{i}", ps, r, body))
                 break
